@@ -203,6 +203,21 @@ def sequences(ctx, main, defs, samples, calls):
             k = rng.choice(pool) if rng.random() < 0.85 else rng.choice(other)
             t.insert(rng.randint(0, len(t)), k + (rng.random() < 0.5,))
         seqs.append(('overflow', tuple(t)))
+    # 5. structured evictions: a key whose verdict is 'invalid' (A) and one whose verdict is 'valid' (Z) around exactly
+    #    twenty entries — A as the oldest and as the newest entry when the twenty-first key arrives, both roles
+    def is_bad(k): return '_invalid' in os.path.basename(k[1]) and os.path.basename(k[1]).split('_invalid')[0] in os.path.basename(k[2])
+    def is_good(k): return os.path.basename(k[1]) == os.path.basename(k[2])
+    bad = [k for k in va_keys if is_bad(k)]; good = [k for k in va_keys if is_good(k)]
+    for r in range(6 if quick else 40):
+        if not bad or not good or len(va_keys) < 25: break
+        A = rng.choice(bad); Z = rng.choice(good)
+        for first, last in ((A, Z), (Z, A)):
+            fill = [k for k in rng.sample(va_keys, min(len(va_keys), 40)) if k not in (A, Z)][:19]
+            f = [k + (False,) for k in fill]
+            a, z = first + (False,), last + (False,)
+            seqs.append(('overflow', tuple([a] + f + [z, a, z, f[-1], f[0]])))          # `first` is the oldest entry
+            seqs.append(('overflow', tuple(f + [a, z, a, z, f[-1], f[0]])))            # `first` is the newest entry
+            seqs.append(('overflow', tuple(f[:10] + [a] + f[10:] + [z, a, f[0], z, a]))) # ... and in the middle
     return seqs
 
 
